@@ -466,6 +466,57 @@ def h_copies(ctx):
     return Outcome(f"copies:{fam}:{'ok' if not vs else 'bad'}", vs, nontrivial=nt)
 
 
+def h_application_header(ctx):
+    """A header member of the application's own, admitted by the registry it configured (registered there, or strict checking off), in each header
+    position, with every kind of key management: the message is produced, decrypts, and returns the member where it was put."""
+    from joserfc import jwe
+    from joserfc.registry import HeaderParameter
+    scen.register_drafts()
+    alg, kind0 = ctx.choose("alg/key", SEQ_ALGS)
+    enc = ctx.choose("enc", ["A128CBC-HS256", "A128GCM"] if "1PU+" not in alg else ["A128CBC-HS256"])
+    kind = kind0 if kind0 != "oct" else "oct%d" % ENC[enc][1]
+    form = ctx.choose("form", FORMS)
+    pos = ctx.choose("member_in", ["protected"] if form == "compact" else ["protected", "unprotected", "recipient"])
+    reg_kind = ctx.choose("registry", ["member registered with the registry", "strict checking off", "member registered, strict checking off"])
+    jwk = scen.key(kind)
+    is_1pu = "1PU" in alg
+    sender_jwk = scen.key(kind, 1) if is_1pu else None
+    pub = A.jkey(jwk, "dict", private=(jwk["kty"] == "oct"))
+    priv = A.jkey(jwk, "dict")
+    algs = [alg, enc]
+
+    def reg():
+        kw = {}
+        if "registered" in reg_kind:
+            kw["header_registry"] = {"tenant": HeaderParameter("Tenant", "str")}
+        if "strict checking off" in reg_kind:
+            kw["strict_check_header"] = False
+        return jwe.JWERegistry(algorithms=algs, **kw)
+    prot, unprot, rhdr = {"alg": alg, "enc": enc}, None, None
+    if pos == "protected":
+        prot["tenant"] = "acme"
+    elif pos == "unprotected":
+        unprot = {"tenant": "acme"}
+    else:
+        rhdr = {"tenant": "acme"}
+    fam = alg.split("+")[0] if alg.startswith(("ECDH", "PBES2")) else (alg if not alg.endswith("GCMKW") else "GCMKW")
+    what = f"alg={alg} key={kind} enc={enc} {form}: tenant in the {pos} header, {reg_kind}"
+    nt = (alg, kind, enc, form, pos, reg_kind)
+    r = scen.jwe_encrypt(form, prot, b"plaintext", pub, None, unprotected=unprot, header=rhdr, sender_key=A.jkey(sender_jwk, "dict") if is_1pu else None, registry=reg())
+    if not r.ok:
+        return Outcome(f"app-header:{fam}:bad", [viol(f"encryption fails for a header member the caller's registry admits: {fam} {form}", f"{what}: {r.exc!r}")], nontrivial=nt)
+    d = scen.jwe_decrypt(copy.deepcopy(r.value), priv, None, registry=reg(), sender_key=A.jkey(sender_jwk, "dict", private=False) if is_1pu else None)
+    vs = []
+    if not d.ok or d.value[0] != b"plaintext":
+        vs.append(viol(f"own output with a header member the caller's registry admits does not decrypt: {fam} {form}", f"{what}: {d.exc!r}"))
+    else:
+        _, gp, gu, gr, _ = d.value
+        got = {"protected": gp, "unprotected": gu or {}, "recipient": (gr[0] if gr else None) or {}}[pos]
+        if got.get("tenant") != "acme":
+            vs.append(viol(f"a header member of the application's own is not returned in its position: {fam} {form}", f"{what}: protected={gp} unprotected={gu} recipient={gr}"))
+    return Outcome(f"app-header:{fam}:{'ok' if not vs else 'bad'}", vs, nontrivial=nt)
+
+
 def h_decrypt_sequences(ctx):
     """Round trips that follow one another in a process: a decrypted object edited by its caller, or an earlier token that was refused,
     leaves the next decryption alone (the sequences of C02, judged here for the round-trip clause)."""
@@ -539,5 +590,6 @@ PARTS = [
     Part("def-up-to-the-limit", h_def_limit, split_depth=3),
     Part("decrypt-then-the-caller-edits-then-decrypt", h_decrypt_sequences, split_depth=3),
     Part("objects-handed-over-as-copies", h_copies, split_depth=2),
+    Part("application-header-members", h_application_header, split_depth=2),
     Part("headers-and-objects-used-again", h_again, bound={"quick": 0, "thorough": 1}, split_depth=2),
 ]
